@@ -32,10 +32,32 @@ let add_sets b tag n (ps : (n * n) list) =
     List.iter (fun t -> Buffer.add_string b (Printf.sprintf " %d" t)) a.(r)
   done
 
+(* `gvm_c17 msb`: only the mirror of min_sentences (C17/QueryModel.v, unbounded native stack, fuel = rules + 1 — the
+   depth never exceeds the number of rules, C17_min_sentences_depth_le_rules), one section per rule IN THE ORDER the
+   mirror produces the sentences:   MSB r ; tok… ; tok…   |   MSB r panic   |   MSB r fuel *)
+let msb_mode = Array.length Sys.argv > 1 && Sys.argv.(1) = "msb"
+
+let msb_line (line : string) : string =
+  let d = parse_dump line in
+  let g = grammar_of d in
+  let ca = costs_of line d.ntoks in
+  let c = tcost (Array.to_list (Array.map n_of_int ca)) in
+  let b = Buffer.create 512 in
+  Buffer.add_string b "MSBS";
+  for r = 0 to d.nrules - 1 do
+    Buffer.add_string b (Printf.sprintf " # MSB %d" r);
+    (match min_sentences_m None (nat_of_int (d.nrules + 1)) g c (n_of_int r) with
+     | Done ss -> List.iter (fun s -> Buffer.add_string b " ;"; List.iter (fun t -> Buffer.add_string b (Printf.sprintf " %d" (int_of_n t))) s) ss
+     | Panic -> Buffer.add_string b " panic"
+     | OutOfFuel -> Buffer.add_string b " fuel")
+  done;
+  Buffer.contents b
+
 let () =
   iter_lines (fun line ->
     let line = if String.length line > 11 && String.sub line 0 11 = "HANGCOST # " then String.sub line 11 (String.length line - 11) else line in
     if String.length line < 2 || String.sub line 0 2 <> "G " then "SKIP" else
+    if msb_mode then msb_line line else
     let d = parse_dump line in
     let g = grammar_of d in
     let n = d.nrules in
